@@ -284,6 +284,30 @@ theorem C14_adopt_sound (own : Str) (h : validHash own = true) (srcs : List Serv
           have := ihr _ hg; exact ⟨this.1, List.mem_cons_of_mem _ this.2⟩
       · simp [e] at hg
 
+/-- The HTTP-tracker request carries the `%XX`-encoding (`quote_from_bytes`) of exactly the 20
+    bytes of the hash the magnet denotes, whatever notation the magnet uses. -/
+theorem C14_tracker_request (v : Str) (h : validHash v = true) :
+    (infohashAsBase16 v >>= infoHashEnc) = .ok (hashBytesEnc (hashVal v)) := by
+  have hlt := C14_hashVal_lt v h
+  rw [C14_torrent_hash v h]
+  show infoHashEnc (hexLower40 (hashVal v)) = _
+  unfold infoHashEnc hexLower40 hashBytesEnc
+  have hm : ((toDigits 16 40 (hashVal v)).map hexDigitLower).mapM hexVal = some (toDigits 16 40 (hashVal v)) := by
+    have := mapM_some_of_forall hexVal hexValD ((toDigits 16 40 (hashVal v)).map hexDigitLower) (by
+      intro c hc
+      obtain ⟨d, hd, rfl⟩ := List.mem_map.mp hc
+      have hd' := toDigits_lt 16 40 _ (by decide) d hd
+      have : ∀ d : Fin 16, hexVal (hexDigitLower d.val) = some (hexValD (hexDigitLower d.val)) := by decide
+      exact this ⟨d, hd'⟩)
+    rw [this, List.map_map]
+    congr 1
+    conv => rhs; rw [← List.map_id (toDigits 16 40 (hashVal v))]
+    apply List.map_congr_left
+    intro d hd
+    exact hexVal_hexDigitLower ⟨d, toDigits_lt 16 40 _ (by decide) d hd⟩
+  simp only [hm]
+  rw [if_neg (by rw [toDigits_length]; decide), toDigits16_eq_b16Digits _ hlt, pairBytes_b16Digits]
+
 /-! ### xl and URL fields -/
 
 /-- `xl` is accepted iff it is `None` or `int()` works on it and gives at least 1; otherwise
